@@ -46,6 +46,7 @@ def template(pos, L, col="s", num="n"):
 
 
 NUM_POS = {"neg_num", "sub_num"}
+NULL_POS = {"eq", "ne", "is_in", "case_cmp", "case_value", "fill_null", "coalesce", "map_value", "filter_eq"}
 
 
 @st.composite
@@ -61,6 +62,9 @@ def c18_case(draw, tier):
         if pos == "clip_str":
             pass
         benign = "x"
+    null_lit = pos in NULL_POS and draw(st.integers(0, 11)) == 0
+    if null_lit:
+        v = None  # the Python value None is data, too: it reaches SQL as NULL with three-valued comparison semantics
     n = draw(st.integers(1, 8))
     svals = draw(st.lists(st.one_of(st.none(), lit_strategy(), st.just(v) if isinstance(v, str) else st.just("a"),
                                     st.builds(lambda a: a + (v if isinstance(v, str) else ""), lit_strategy())), min_size=n, max_size=n))
@@ -83,7 +87,10 @@ def c18_case(draw, tier):
             steps.append({"out": "v1", "verb": "mutate", "in": "v0", "items": [["r", e]]})
         return steps
 
-    return {"tables": [tb], "steps": mk(v), "benign_steps": mk(benign), "result": "v1", "pos": pos, "literal": enc(v)}
+    case = {"tables": [tb], "steps": mk(v), "benign_steps": mk(benign), "result": "v1", "pos": pos, "literal": enc(v)}
+    if null_lit:
+        del case["benign_steps"]  # NULL is a keyword, not a literal token: no skeleton comparison
+    return case
 
 
 _STR = re.compile(r"N?'(?:[^']|'')*'")
@@ -101,7 +108,7 @@ class C18(Check):
     ID = "C18"
     RULE = ("Hypothesis strategy: a literal (string over an alphabet with every SQL / LIKE / regex metacharacter, quotes, "
             "backslashes, comment and statement syntax, newlines, non-ASCII text, biased towards known tricky strings; or a "
-            "negative number) placed in one of 23 operator positions (==, !=, <, is_in, + both sides, starts_with, ends_with, "
+            "negative number; in 1 of 12 cases of the comparison / fill positions the value None) placed in one of 23 operator positions (==, !=, <, is_in, + both sides, starts_with, ends_with, "
             "literal contains, replace_all both arguments, case value / comparison, map key / value, constant mutate, "
             "fill_null, coalesce, clip bound, filter predicate, horizontal max, unary minus, subtraction) over column data "
             "drawn from the same alphabet (incl. the literal itself and strings containing it). Oracle: (1) SQLite export "
